@@ -278,8 +278,10 @@ func c17Push(c *Ctx) {
 	c.Check(okO, rule, role, fn, "openid-needs-redirect-uri", "an openid request is accepted only with a redirect_uri parameter", "success for an openid request without the redirect_uri test", wO)
 }
 
-func c17Handler(c *Ctx) {
-	const rule, role = "C17.R4", "par-handler"
+func c17Handler(c *Ctx) { parHandlerRules(c, "C17.R4", "C17.R4") }
+
+func parHandlerRules(c *Ctx, rule, expRule string) {
+	const role = "par-handler"
 	fns := c.Calling(c.PushFns(), ".CreatePARSession")
 	if len(fns) == 0 {
 		c.RoleUnmatched(rule, role, "push handler calling CreatePARSession")
@@ -375,7 +377,7 @@ func c17Handler(c *Ctx) {
 		c.Check(okSec, rule, role, fn, "transport", "the pushed request is stored only if the redirect URI passed the secure-transport checker", "CreatePARSession reachable without the checker having accepted the redirect URI", wSec)
 		c.Check(okSc, rule, role, fn, "scopes", "every requested scope iterated before storing passed the configured scope strategy against the client's scopes", "a requested scope is not validated", wSc)
 		c.Check(okAu, rule, role, fn, "audience", "the requested audience passed the configured audience strategy before storing", "CreatePARSession reachable without the audience strategy having returned nil", wAu)
-		c.Check(okExp, "C07.R4", role, fn, "par-expires-in", "expires_in and the stored par_context expiry derive from the same configured lifespan (stored expiry = now + lifespan)", "expires_in or the stored expiry does not derive from GetPushedAuthorizeContextLifespan", wExp)
+		c.Check(okExp, expRule, role, fn, "par-expires-in", "expires_in and the stored par_context expiry derive from the same configured lifespan (stored expiry = now + lifespan)", "expires_in or the stored expiry does not derive from GetPushedAuthorizeContextLifespan", wExp)
 	}
 }
 
